@@ -44,6 +44,7 @@ double ext_to_double(const Ext& e, double infty) {
 }
 Ext ext_from_double(double d, double infty) {
   if (d >= infty) return Ext::pinf(); if (d <= -infty) return Ext::ninf();
+  if (std::isnan(d)) return Ext(Q(0));
   return Ext(q_from_double(d));
 }
 
